@@ -45,8 +45,13 @@ class KeysPredicate(Unit):
         return g.ifs, g.target.elts[0].id, g.target.elts[1].id
 
     def ensures(self, case, a, out, X):
-        if out.kind != "return" or out.value is None:
-            yield "C18", "keys-is-a-filter-over-vars(cls).items()", Undecided("Enum.keys is no longer a single list comprehension over vars(cls).items(); the bounded units still apply")
+        if out.kind != "return":
+            yield "C18", "keys-is-a-filter-over-vars(cls).items()", Undecided("the source of Enum.keys could not be read; the bounded units still apply")
+            return
+        if out.value is None:
+            # not a single list comprehension over vars(cls).items() any more (a loop, a helper, a generator ...): the
+            # filter's truth table over the abstraction classes is taken from the real code
+            yield from self._truth_table("Enum.keys is not a single list comprehension")
             return
         if not X.symbolic:
             yield "C18", "predicate-evaluated-symbolically-only", True
@@ -244,7 +249,7 @@ class ValueKinds(Unit):
     name = "enum/value-kinds"
     properties = ("C18",)
     level = "bounded"
-    bound_note = "representative values: str, dict, nested dict, OpCode, None, equal values under two names; concrete native runs"
+    bound_note = "representative values: str, dict, nested dict, OpCode, None, equal values under two names; reverse lookup of non-member values incl. every attribute value of the enumeration object itself; concrete native runs"
 
     def run(self, X, case, a):
         E = enummod().Enum
@@ -271,6 +276,32 @@ class ValueKinds(Unit):
             res.append(("add-existing", _try(lambda: enum.add("s", 1))[1], "KeyError"))
             res.append(("remove-missing", _try(lambda: enum.remove("zzz"))[1], "KeyError"))
             res.append(("keys-after-refusals", list(enum.keys), list(m.d.keys())))
+        # values that are no member's value give "", whatever they are -- in particular the values Python itself keeps
+        # in a class (the doc string None, the module name, descriptors): an enumeration answers for its members only
+        plain_items = [("a", 1), ("b", "two")]
+        plain = E(dict(plain_items))
+        pm = Model(plain_items)
+        for stage in ("fresh", "after-add-remove"):
+            if stage != "fresh":
+                plain.add("c", 3.5)
+                pm.add("c", 3.5)
+                plain.remove("a")
+                pm.remove("a")
+            cands = [None, "", 0, False, (), b"", "pyscsi.utils.enum", "Enum", E.__name__, type(plain).__module__, plain, E, object]
+            for n in sorted(set(dir(plain)) | set(vars(plain))):
+                try:
+                    cands.append(getattr(plain, n))
+                except Exception:
+                    pass
+            wrong = []
+            for c in cands:
+                try:
+                    got, exp = plain[c], pm.lookup(c)
+                except Exception as ex:
+                    got, exp = "raised %s" % type(ex).__name__, "a name or ''"
+                if got != exp:
+                    wrong.append("%.40r -> %r, expected %r" % (c, got, exp))
+            res.append(("lookup-of-non-member-values:%s%s" % (stage, " (%s)" % "; ".join(wrong[:3]) if wrong else ""), wrong, []))
         bad = []
         for args, kw in (((1, 2, 3), {}), (((1, 2, 3),), {}), ((), {})):
             bad.append(_try(lambda: E(*args, **kw))[1])
